@@ -12,876 +12,966 @@ Definition show_fres (r : fres) : string :=
   end.
 Definition check (rs : list rune) : string := digest (show_fres (format_res rs)).
 Definition full (rs : list rune) : string := show_fres (format_res rs).
-Eval vm_compute in ("<<<M1654>>>" ++ check (runes_of_ascii "packet a1 {
-    @rightPad(' ')
-    @tag(255)
-    @lengthOf(zchar)
-    string MetaDataX @calculatedFrom(""CRC32"") `crlf
-        line`,
-    u8 A @lengthOf(charz),
-    body,
-    @rightPad('0')
-    @lengthOf(charz)
-    match repeatCount as Z9_ {
-        0123456789 : metadata,
-        """ ++ [233]%N ++ runes_of_ascii "t" ++ [233]%N ++ runes_of_ascii """ : float,
-        // packet A { u8 x, }
-        ""1"" : Logon,
-    },
-    x_y_z `" ++ [233]%N ++ runes_of_ascii "`,
-    @calculatedFrom(""1"")
-    match Header as body {
-        4294967296 : MetaDataX,
-        ""abc"" : packetx,
-    },
-    x_y_z @calculatedFrom(""\" ++ [233]%N ++ runes_of_ascii """),
-    i64_ @calculatedFrom(""abc"") `
-        `,
-    @rightPad()
-    //	t
-    char float @lengthOf(trueish),
-    @tag(42)
-    @leftPad('\x00')
-    @calculatedFrom(""\n"")
-    repeat string tag,//x
-}
-
-packet tag {
-    repeat T u `
-        `,
-    string u128 @calculatedFrom(""packet"") `u8 x,`,
-    // trailing space 
-    //x
-    repeat f64 stringy `" ++ [233]%N ++ runes_of_ascii "`,
-    u32 leftPad @lengthOf(float),
-    uint32 i8i8 @lengthOf(f32a),
-    int @calculatedFrom(""" ++ [233]%N ++ runes_of_ascii "t" ++ [233]%N ++ runes_of_ascii """),
-    @calculatedFrom(""\n"")
-    @leftPad('\x00')
-    @rightPad()
-    repeat pack `// not a comment`,
-    @calculatedFrom(""1"")
-    char[] string_,
-    f64 calculatedFrom @lengthOf(pack) `tab	here`,
-    @tag(00)
-    int8 tag,
-}
-
-options {
-    f32a = ""a	b""
-    _x = false;
-    _x = '0'
-    o = false/// triple
-}
-
-packet falsey {
-    @tag(007)
-    string falsey,
-    i64_ @lengthOf(crc),
-    repeat u128 body,
-    char[00] roots,/// triple
-    metadata @lengthOf(packetx) `
-        `,// trailing space 
-    string_ BodyLength,
-    @calculatedFrom(""it's"")
-    repeat matchKey,
-    metadata @calculatedFrom(""abc""),
-    @tag(255)
-    repeat Pad {
-        char[] packetx,
-        repeat o {
-            int16 charz,
-            packetx {
-                i8 zchar,
-            },
-            char[10] x,
-            repeat zchar[0123456789] pack,// c
-        },
-        int,
-        i8 asx,
-    },
-}
-
-packet leftPad {
-    @tag(255)
-    repeat uint16 msg_type,
-    // c
-    f32 trueish @calculatedFrom("""") `two words`,
-    @leftPad('\x00')
-    @lengthOf(leftPad)
-    @lengthOf(asx)
-    //	t
-    zchar[1] roots @calculatedFrom(""abc""),
-    pack @lengthOf(Z9_),
-    @tag(65535)
-    @lengthOf(Header)
-    // c
-    f64 tag,
-    @tag(1)
-    repeat u8x,
-    match stringy as x {
-        ""it's"" : Z9_,
-        7 : u128,
-        ""// no comment"" : trueish,
-        00 : f32a,
-        [3, 1, 00] : pack,
-        """ ++ [28040; 24687]%N ++ runes_of_ascii """ : options1,
-    },
-    repeat u128 {
-        repeat crc {
-            int16 int,
-        },
-    },
-    @leftPad(' ')
-    // trailing space 
-    repeat zchar[255] int `crlf
-        line`,
-    @tag(1)
-    Logon roots `// not a comment`,
-}")).
-Eval vm_compute in ("<<<M279>>>" ++ check (runes_of_ascii "  root packet
-    crc {	uint32
-repeatCount //
-@lengthOf( // a // b
-MetaDataX	) `say ""hi""` ,
-    @tag( 65535 ) A {
-    u128 , u8x	{ repeatCount  @lengthOf( As )// c
-,// packet A { u8 x, }
-i32	_x@calculatedFrom(//	t
-""" ++ [128512]%N ++ runes_of_ascii """	), } , } // c
-,
-@lengthOf(As ) @tag(  0 ) @tag(4294967296 ) string metadata ,
-string lengthOf // `tick` ""quote"" 'q'
-@lengthOf(f32a) , @tag( 3 )string packetx,	@lengthOf( Pad) @lengthOf( packetx ) BodyLength @calculatedFrom( ""a	b"" )
-, repeat u8x
-{ zchar[ 3 ]
-    tag `doc` , match As as leftPad
-    { [
-    10 ,
-3 , 7 ,
-""abc"" , 42 // @lengthOf(
-]
-:
-A
-, } , match Header as falsey { 42
-// `tick` ""quote"" 'q'
-// trailing space 
-:
-    msg_type
-    , 00
-: A
-1 :
-charz ,""// no comment"" : int // @lengthOf(
-,	0123456789 :chars , 4294967296
-: x } ,
-}
-    /// triple
-    , @tag(
-10 ) @tag(//x
-007 )
-@calculatedFrom( ""`tick`""
-    )i8i8 @lengthOf(
-    //
-    charz ),
-    char[ 7] Header
-, } packet
-lengthOf // @lengthOf(
-{match metadata
-    // " ++ [128512]%N ++ runes_of_ascii " emoji
-    as asx{ 7 // packet A { u8 x, }
-: //
-float  ,
-    // " ++ [128512]%N ++ runes_of_ascii " emoji
-    """ ++ [233]%N ++ runes_of_ascii "t" ++ [233]%N ++ runes_of_ascii """:
-stringy
-, """ ++ [28040; 24687]%N ++ runes_of_ascii """ :
-BodyLength , 7 : leftPad , } , @lengthOf(MetaDataX
-)repeat zchar[ 7 ]float , @tag( 0
-    )matchKey @calculatedFrom(""packet""
-    ) // packet A { u8 x, }
-, }packet Pad{ options1 @lengthOf(rootA ),} root // c
-packet BodyLength{
-string uint8x
-//
-// " ++ [27880; 37322]%N ++ runes_of_ascii "
-@lengthOf( Z9_) , } // c")).
-Eval vm_compute in ("<<<M331>>>" ++ check (runes_of_ascii "packet o
-// trailing space 
-//x
-{	repeat pack stringy `two words`	,
-    char[	1 ]
-leftPad , }
-/// triple
-// @lengthOf(
-MetaData msg_type{ zchar[  1] Pad`" ++ [28040; 24687; 31867; 22411]%N ++ runes_of_ascii "` , uint32 //x
-charz//
-`a\`
-,  A u8x `// not a comment` ,
-    // `tick` ""quote"" 'q'
-    } packet
-options1
-    {@calculatedFrom( """ ++ [233]%N ++ runes_of_ascii "t" ++ [233]%N ++ runes_of_ascii """
-) @rightPad( )
-Pad
-@lengthOf(// packet A { u8 x, }
-pack ) `` ,
-match
-    A
-as
-    a1 { 255  :
-msg_type  ,
-}
-,
-// " ++ [27880; 37322]%N ++ runes_of_ascii "
-//
-@lengthOf( tag )  @tag( 00 )@rightPad(' '
-) match Header	as f32a { """" : float , } // @lengthOf(
-, char[] T@calculatedFrom(
-    // packet A { u8 x, }
-    ""packet""	) , repeat asx /// triple
-msg_type`crlf
-line` , @calculatedFrom( ""\" ++ [233]%N ++ runes_of_ascii """ ) @tag( // trailing space 
-7
-)
-int64 o
-`line1
-line2`,
-    // trailing space 
-    } // " ++ [128512]%N ++ runes_of_ascii " emoji
-root
-packet// packet A { u8 x, }
-crc  { int8
-body
-@lengthOf( matchKey ) `two words` ,
-    //	t
-    @lengthOf( u8x )
-zchar[
-0123456789
-    ] i8i8,
-} MetaData  a1 { falsey _x
-`
-` ,
-char[] body`" ++ [28040; 24687; 31867; 22411]%N ++ runes_of_ascii "` ,
-// packet A { u8 x, }
-//
-zchar[ 42] trueish `
-` , float trueish,  metadata //x
-o `{ , }`, }")).
-Eval vm_compute in ("<<<M1331>>>" ++ check (runes_of_ascii "  options { 
-FixedStringPadFromLeft 
-=	true;
-
-FixedStringPadChar =
-    '0' ;
-} packet
-Leg{	InPrice0 { 
-repeat string clOrdID ,
-
-    int16 msgKind
-, 
-zchar[
-
-    5  ]	Px
-
-    ,
-} 
-,
-i16  f1 ,
-repeat 
-f64 Side2
-
-    , string 
-Acct	,
-} 
-packet Cancel { zchar[ 4
-
-    ]clOrdID ,	string
-	seqNo  ,
-
-    Leg,	@leftPad
-    ('0' ) char[ 11  ] OrderId 
-,	}
-    packet Quote  {
-    repeat
-	char[
-
-4]
-	sym 
-,
-
-    f64
-	OrderId  ,
-    repeat
-Leg ,repeat
-i64 f1 , int16 Note ,  zchar[3
-	]
-	count ,
-	}root	packet Ack
-{ @leftPad	(
-' ')	char[
-
-    10 ] 
-sym
-	, InPx60	{Cancel
-
-,
-
-repeat
-char[  1
-]
-
-    f1 , string Tail,
-    repeat
-
-InNote55
-    {  int8
-	count, f64	f1,repeat  Cancel
-    ,
-} ,	char[] 
-tag7
-
-,	repeat
-
-    string
-msgKind ,
-}
-, u8
-lastPx
-	,
-match 
-lastPx as Body
-{
-152
-
-:	Quote ,173 : Cancel ,
-
-4
-	:
-Leg
-, }
-
-    ,	u16 Ref
-@calculatedFrom( ""CRC32"")	, } ")).
-Eval vm_compute in ("<<<M1321>>>" ++ check (runes_of_ascii "// top
-packet // c0
-P1
+Eval vm_compute in ("<<<M1330>>>" ++ check (runes_of_ascii "options {
     // c1
-{ // c2
-u8
-    // c3
-a // c4a
-  // c4b
-,
+FixedStringPadFromLeft // c2
+= // c3
+true
+    // c4
+;
     // c5
-} // c6
-packet
+FixedStringPadChar // c6
+=
     // c7
-P2 // c8
-{ // c9a
-  // c9b
-P1 // c10
-, } // c12a
-  // c12b
-packet // c13a
+'0' // c8
+; // c9
+} packet Leg { // c13a
   // c13b
-P3
+InPrice0
     // c14
-{
-    // c15
-P2
+{ // c15
+repeat
     // c16
-, // c17
-P1 , // c19
-} // c20a
-  // c20b
-packet // c21
-P4 // c22
-{ // c23
-repeat // c24a
-  // c24b
-P3
-    // c25
-, P2 , } root // c30a
-  // c30b
-packet // c31
-P5 { // c33
-P4
-    // c34
+string // c17a
+  // c17b
+clOrdID // c18
 ,
+    // c19
+int16 // c20a
+  // c20b
+msgKind ,
+    // c22
+zchar[
+    // c23
+5 // c24
+] // c25
+Px // c26a
+  // c26b
+, // c27a
+  // c27b
+} // c28a
+  // c28b
+,
+    // c29
+i16 // c30
+f1
+    // c31
+,
+    // c32
+repeat // c33a
+  // c33b
+f64 // c34a
+  // c34b
+Side2
     // c35
-P3 // c36a
-  // c36b
-, P1
-    // c38
+,
+    // c36
+string // c37
+Acct // c38
 ,
     // c39
-u8 K // c41
-, // c42
-match // c43
-K // c44a
+} packet // c41a
+  // c41b
+Cancel // c42
+{
+    // c43
+zchar[ // c44a
   // c44b
-as
-    // c45
-Body // c46a
+4 // c45
+] // c46a
   // c46b
-{ // c47a
-  // c47b
-4 : // c49a
-  // c49b
-P4 // c50
+clOrdID , // c48a
+  // c48b
+string
+    // c49
+seqNo // c50
 , // c51
-3 :
+Leg
+    // c52
+,
     // c53
-P3 // c54a
-  // c54b
-, // c55a
-  // c55b
-2 // c56a
-  // c56b
-:
-    // c57
-P2 ,
-    // c59
-1 : // c61a
-  // c61b
-P1 // c62
-, // c63a
+@leftPad // c54
+(
+    // c55
+'0'
+    // c56
+) // c57
+char[
+    // c58
+11 // c59
+] OrderId // c61
+, // c62
+} // c63a
   // c63b
-}
+packet
     // c64
-, }
+Quote // c65a
+  // c65b
+{
     // c66
-")).
-Eval vm_compute in ("<<<M312>>>" ++ check (runes_of_ascii "packet // packet A { u8 x, }
-tag
-    { @calculatedFrom(""x y"" ) lengthOf{ options1
-    `
-`,} , @tag( 7 )
-int {
-//x
-// " ++ [27880; 37322]%N ++ runes_of_ascii "
-char[ 007  ] // `tick` ""quote"" 'q'
-calculatedFrom @lengthOf(
-metadata
-)  , tag @lengthOf( falsey
-) ,	f32
-    // " ++ [128512]%N ++ runes_of_ascii " emoji
-    calculatedFrom
-// `tick` ""quote"" 'q'
-//
-`{ , }` , i8i8
-    {string
-    i64_ @lengthOf( asx )	`it's` , u @calculatedFrom(  ""\n"" ) ,
-    } ,	}
-    ,
-    @calculatedFrom(""abc"" //
-)  @leftPad ( ' '
-    )  uint64 calculatedFrom
-,// " ++ [27880; 37322]%N ++ runes_of_ascii "
-} packet o { Header ,
-    @lengthOf(	i8i8
-) float32
-    Pad // c
-,char[ 42 ]
-leftPad
-    @calculatedFrom(	"""" // " ++ [128512]%N ++ runes_of_ascii " emoji
+repeat // c67a
+  // c67b
+char[ // c68
+4 ]
+    // c70
+sym , f64 // c73a
+  // c73b
+OrderId
+    // c74
+, repeat Leg // c77
+,
+    // c78
+repeat // c79a
+  // c79b
+i64 f1
+    // c81
+, int16 // c83
+Note // c84
+, // c85
+zchar[ // c86a
+  // c86b
+3 ] // c88
+count // c89a
+  // c89b
+, // c90
+}
+    // c91
+root packet // c93
+Ack
+    // c94
+{ // c95
+@leftPad // c96
+(
+    // c97
+' '
+    // c98
 )
-    , @tag( 255 )
-body
-    u , } packet lengthOf{
-// packet A { u8 x, }
+    // c99
+char[ 10 // c101
+] // c102a
+  // c102b
+sym
+    // c103
+,
+    // c104
+InPx60 // c105
+{ Cancel // c107
+, // c108a
+  // c108b
+repeat char[ 1
+    // c111
+] // c112a
+  // c112b
+f1 , // c114a
+  // c114b
+string // c115a
+  // c115b
+Tail , // c117
+repeat
+    // c118
+InNote55 {
+    // c120
+int8 // c121
+count
+    // c122
+, // c123a
+  // c123b
+f64 // c124
+f1 // c125
+, repeat // c127a
+  // c127b
+Cancel // c128
+,
+    // c129
+} // c130
+, char[] // c132
+tag7 , // c134a
+  // c134b
+repeat // c135a
+  // c135b
+string msgKind , // c138a
+  // c138b
+} // c139a
+  // c139b
+, // c140
+u8
+    // c141
+lastPx // c142
+, // c143
+match lastPx
+    // c145
+as // c146a
+  // c146b
+Body // c147
+{ // c148a
+  // c148b
+152 // c149
+: // c150a
+  // c150b
+Quote , 173 :
+    // c154
+Cancel // c155
+,
+    // c156
+4
+    // c157
+: Leg , // c160a
+  // c160b
+} , // c162a
+  // c162b
+u16 Ref
+    // c164
+@calculatedFrom( // c165
+""CRC32"" ) // c167a
+  // c167b
+, } // c169
+")).
+Eval vm_compute in ("<<<M313>>>" ++ check (runes_of_ascii "options { BodyLength = char[ 7] ;	}
 // c
-@tag(
-    255 //x
-) char[ 0123456789 ] o
-`
-` , }
+// @lengthOf(
+packet asx// " ++ [128512]%N ++ runes_of_ascii " emoji
+{ int16
+    x_y_z , @calculatedFrom(
+    """" ) @lengthOf(
+    /// triple
+    chars) //
+repeat repeatCount
+charz
+/// triple
+// " ++ [27880; 37322]%N ++ runes_of_ascii "
+, @leftPad ( ) i64_@calculatedFrom(
+""\" ++ [233]%N ++ runes_of_ascii """	) `// not a comment` , tag Z9_
+`two words` ,
+@lengthOf( asx
+)@calculatedFrom(
+""`tick`""
+    )match uint8x as
+matchKey
+    {0123456789
+// packet A { u8 x, }
+// a // b
+: u8x ,1 : zchar , } ,u128 @lengthOf( u128 // packet A { u8 x, }
+)// " ++ [128512]%N ++ runes_of_ascii " emoji
+, } MetaData	msg_type  {
+string
+BodyLength  `two words` , options1// " ++ [128512]%N ++ runes_of_ascii " emoji
+i64_ ,
+    }// " ++ [128512]%N ++ runes_of_ascii " emoji
+packet roots { u `` , @calculatedFrom( ""a	b"")match len as	msg_type{
+    // c
+    """ ++ [28040; 24687]%N ++ runes_of_ascii """
+:
+charz}, crc @calculatedFrom(
+// packet A { u8 x, }
+// packet A { u8 x, }
+""it's"" ) `a\`
+,@leftPad
+( '0' )@tag( 007	) zchar[// trailing space 
+3
+    // trailing space 
+    ] falsey ,  @calculatedFrom(// `tick` ""quote"" 'q'
+""\n""
+    )@calculatedFrom(""CRC32""// c
+)
+    // trailing space 
+    match
+    //x
+    Packet as // @lengthOf(
+stringy	{ 1:
+Pad
+, ""it's"" :f32a ,
+} , @leftPad (
+' '
+)
+    match // " ++ [27880; 37322]%N ++ runes_of_ascii "
+int as	a1 { [ 0123456789 ,255]
+    :
+    options1
+//x
+//x
+}
+    ,BodyLength
+    //
+    @calculatedFrom( """ ++ [28040; 24687]%N ++ runes_of_ascii """ ),
+float32
+    zchar
+@calculatedFrom( ""// no comment""
+)
+,	@tag( 10 ) zchar[
+    // packet A { u8 x, }
+    1  ] rootA , }
+")).
+Eval vm_compute in ("<<<M1836>>>" ++ check (runes_of_ascii "root packet 
+roots
+{// `tick` ""quote"" 'q'
+}
+options { asx=
+""\n""
+    ;
+x_y_z=
+3	; rootA =
+""CRC32"" ;
+
+    float
+
+=
+	char
+    T= false ;
+    } packet  falsey{
+
+    body
+{	match
+    u8x	as	/// triple
+string_
+
+    {  [
+42,
+
+    7
+
+, 65535 ,  3 
+,
+	42
+
+    , 
+7
+	, ""1""
+    ,
+""packet"" ]  : 
+	    // `tick` ""quote"" 'q'
+    	i64_
+
+, 
+[""abc""] : Foo ,
+""a\\""	:
+
+    roots
+
+    ,4294967296
+    : stringy } 
+, //x
+  asx`{ , }` 	 // " ++ [128512]%N ++ runes_of_ascii " emoji
+    , i8
+charz
+    @lengthOf(	// trailing space 
+    x_y_z)// trailing space 
+  `a\` ,
+
+} 
+  // @lengthOf(
+    , @tag(65535
+)
+i64_
+	@lengthOf( tag
+) 
+`u8 x,` 
+
+// a // b
+
+  //	t
+	,
+Z9_
+@lengthOf(  int) ,
+    @calculatedFrom(
+
+""a\""b""
+    ) uint16
+stringy @lengthOf( 
+trueish) 
+, Logon {
+string Logon`say ""hi""`  ,
+
+    packetx i64_
+
+    , match	msg_type
+
+    as
+	float
+{ ""\n""  :
+i64_,
+    [  """ ++ [128512]%N ++ runes_of_ascii """ ] :
+	metadata ,  // `tick` ""quote"" 'q'
+
+[  
+  // trailing space 
+
+	// " ++ [128512]%N ++ runes_of_ascii " emoji
+  10
+
+,
+    ""1""
+]
+	:
+zchar , }
+	, //x
+	}
+
+    //x
+	, Packet  @calculatedFrom( 
+""CRC32""
+
+    )
+,
+    }
 
 ")).
-Eval vm_compute in ("<<<M6>>>" ++ check (runes_of_ascii "// `tick` ""quote"" 'q'
-packet As
-{ @rightPad ( '0' ) stringy
-@lengthOf( calculatedFrom),	@tag( 10	) string uint8x `
-` ,	match body // packet A { u8 x, }
-as uint8x {
-    ""it's"" :  rootA , [ 00 ] : leftPad
+Eval vm_compute in ("<<<M289>>>" ++ check (runes_of_ascii "options  {
+// " ++ [27880; 37322]%N ++ runes_of_ascii "
+//x
+float // packet A { u8 x, }
+=char[]
+    // @lengthOf(
+    ; Header = false
+//
+/// triple
+}
+    // `tick` ""quote"" 'q'
+    options {	x =char[] ; }	MetaData i64_{f64 As
+    /// triple
+    `
+` , repeatCount MetaDataX
+// `tick` ""quote"" 'q'
+// `tick` ""quote"" 'q'
+,
+repeatCount u128 //x
+,	metadata msg_type `tab	here`
     ,
-42 :	MetaDataX , ""a	b"" :  calculatedFrom
-    255
-:trueish	} , repeat	i64 Logon `tab	here` , } options {crc
-= '\x00' ;}
-packet x { @calculatedFrom(
-""a\\""
-    )
-@tag( 42
-) @leftPad	( '0' // c
-) match o	as /// triple
-x_y_z {// packet A { u8 x, }
-[ """ ++ [128512]%N ++ runes_of_ascii """// trailing space 
-, ""x y"" , // c
-0123456789 ,""CRC32"" ,
-//	t
-// packet A { u8 x, }
-""it's""
-, 007
-, 3, 007 // @lengthOf(
-] :	Packet // c
-[	255, ""x y""
-    ] :x_y_z
-    ,
-} , }
-// trailing space 
-")).
-Eval vm_compute in ("<<<M1114>>>" ++ check (runes_of_ascii "// top
-packet
+    }
+packet  options1
+    {
+    repeat char[0123456789] T  , @tag(  65535
+)
+    //x
+    @calculatedFrom( ""CRC32""
+) @calculatedFrom( """ ++ [28040; 24687]%N ++ runes_of_ascii """ ) repeat string
+Logon
+    ,	@lengthOf( u128 )
+stringy  {string_ x ,
+} , @tag( // " ++ [27880; 37322]%N ++ runes_of_ascii "
+10) u64 tag @lengthOf(roots), Foo	@lengthOf(
+Foo
+)`// not a comment` ,
+string pack `a\` , match A
+    as charz {
+[ 3 ] : x ,} ,@tag(42 ) f64 msg_type @lengthOf(
+trueish )
+,match	pack /// triple
+as
+options1 { """ ++ [28040; 24687]%N ++ runes_of_ascii """ : // packet A { u8 x, }
+string_ ,	[ 65535, 7 ,
+""a\""b""
+    , 7]//	t
+: f32a 4294967296: o ,  }	,
+    char[] falsey ,
+} // " ++ [128512]%N ++ runes_of_ascii " emoji")).
+Eval vm_compute in ("<<<M1523>>>" ++ check (runes_of_ascii "packet o {
+    repeat pack stringy `two words`,
+    char[1] leftPad,
+}
+
+MetaData msg_type {
+    zchar[1] Pad `" ++ [28040; 24687; 31867; 22411]%N ++ runes_of_ascii "`,
+    uint32 charz `a\`,
+    A u8x `// not a comment`,
+}
+
+packet options1 {
+    @calculatedFrom(""" ++ [233]%N ++ runes_of_ascii "t" ++ [233]%N ++ runes_of_ascii """)
+    @rightPad()
+    Pad @lengthOf(pack) ``,
+    match A as a1 {
+        255 : msg_type,
+    },
+    @lengthOf(tag)
+    @tag(00)
+    @rightPad(' ')
+    match Header as f32a {
+        """" : float,
+    },
+    char[] T @calculatedFrom(""packet""),
+    repeat asx msg_type `crlf
+    line`,
+    @calculatedFrom(""\" ++ [233]%N ++ runes_of_ascii """)
+    @tag(7)
+    int64 o `line1
+    line2`,
+}// " ++ [128512]%N ++ runes_of_ascii " emoji
+
+root packet crc {
+    int8 body @lengthOf(matchKey) `two words`,
+    @lengthOf(u8x)
+    zchar[0123456789] i8i8,
+}
+
+MetaData a1 {
+    falsey _x `
+    `,
+    char[] body `" ++ [28040; 24687; 31867; 22411]%N ++ runes_of_ascii "`,
+    zchar[42] trueish `
+    `,
+    float trueish,
+    metadata o `{ , }`,
+}")).
+Eval vm_compute in ("<<<M1124>>>" ++ check (runes_of_ascii "// top
+options
     // c0
-float
-    // c1
-{
-    // c2
-@rightPad
-    // c3
-(
-    // c4
-)
-    // c5
-rootA
+{ // c1
+uint8x // c2a
+  // c2b
+= 007 // c4a
+  // c4b
+; lengthOf
     // c6
-@lengthOf(
-    // c7
-trueish
-    // c8
-)
-    // c9
-,
-    // c10
-stringy
-    // c11
-@lengthOf(
+= i8 ; // c9a
+  // c9b
+} packet i64_
     // c12
-matchKey
-    // c13
-)
-    // c14
-,
+{ // c13
+@calculatedFrom( // c14
+""1""
     // c15
-char[
-    // c16
-4294967296
-    // c17
-]
-    // c18
-pack
+) // c16
+@tag( // c17
+3 )
     // c19
 @lengthOf(
     // c20
-uint8x
-    // c21
-)
-    // c22
-,
-    // c23
-}
-    // c24
+rootA ) // c22
+repeat // c23
+int8 // c24a
+  // c24b
+Packet // c25a
+  // c25b
+`u8 x,` // c26
+, // c27
+} // c28a
+  // c28b
 root
-    // c25
-packet
-    // c26
-trueish
-    // c27
-{
-    // c28
-repeat
     // c29
-uint64
-    // c30
-u128
+packet // c30a
+  // c30b
+stringy
     // c31
-`line1
-line2`
-    // c32
-,
-    // c33
-}
-    // c34
+{ // c32a
+  // c32b
+@rightPad ( ' ' // c35
+) // c36
+repeat // c37a
+  // c37b
+char[ // c38
+10 // c39
+] repeatCount // c41a
+  // c41b
+, // c42
+@tag( // c43a
+  // c43b
+255
+    // c44
+) // c45
+float64
+    // c46
+msg_type
+    // c47
+@calculatedFrom( ""packet""
+    // c49
+) // c50a
+  // c50b
+, // c51a
+  // c51b
+} // c52
 ")).
-Eval vm_compute in ("<<<M1875>>>" ++ check (runes_of_ascii "  MetaData  u128
-	{// a // b
-		string zchar 	 //x
-`two words`
-,
-    u16
-
-packetx`a\`  ,  char[ 1]
-
-    Logon
-
-, len
-crc ,
-
-char[7
-
-] i8i8
-
-,
-	char[]
-    calculatedFrom
-	,
-} // @lengthOf(
-  MetaData  u	{
-    u// " ++ [128512]%N ++ runes_of_ascii " emoji
-  u128
-
-    ,  //	t
-      } 
-root packet
-    metadata
-{ }
-	options {
-matchKey
-=
-
-    255
-    ;x_y_z = 
-007
-
-    crc
-= 
-int16	;
-
-zchar = 	 // c
-	char[ 42] ;int=
-true;}
-    options
-    {Header =
-""" ++ [128512]%N ++ runes_of_ascii """
-;
-
-    len = ' ';	matchKey
-=
-	"""";
-MetaDataX=' '
-
-;  o 
-=
-'\x00'
-;
-	}  
-  /// triple
-")).
-Eval vm_compute in ("<<<M301>>>" ++ check (runes_of_ascii "root packet A { repeat uint64 matchKey
-    , char[]
-    Packet , char[
-    007 ] calculatedFrom , }
-options{ Header =
-007 ;
-float =
-    true} packet chars { repeat
-chars ,@rightPad
-    ( '0' ) chars f32a
-    `line1
-line2`
-, int16
-u8x , @tag( 4294967296 ) @rightPad
-( )
-u64 packetx@calculatedFrom(""it's"" )
-,
-@calculatedFrom( ""\n"" ) o@calculatedFrom(""a\""b"" ), Logon	@lengthOf( BodyLength
+Eval vm_compute in ("<<<M344>>>" ++ check (runes_of_ascii "options // a // b
+{	}
+    packet i8i8 { @tag(
+3 ) x
+@calculatedFrom(
+""it's""	) , @lengthOf( f32a ) match
+rootA
+as uint8x // @lengthOf(
+{ 0 : string_ 42 : Packet } , @leftPad
+(
+    '\x00'
+) i64_ packetx `u8 x,` ,
+    @calculatedFrom(""x y"" ) matchKey {len  ,
+    }  ,
+@lengthOf(  matchKey
+)
+    @calculatedFrom(// `tick` ""quote"" 'q'
+""abc"" ) @lengthOf( x_y_z )
     /// triple
+    repeat metadata `line1
+line2` ,lengthOf repeatCount , /// triple
+int32
+// " ++ [27880; 37322]%N ++ runes_of_ascii "
+//	t
+roots @calculatedFrom( ""`tick`"")
+`" ++ [233]%N ++ runes_of_ascii "` , zchar[
+1	]	Packet	@calculatedFrom(	""// no comment"" ) ,} packet
+    options1
+{ @lengthOf(
+    uint8x ) A @calculatedFrom( ""it's""
     )
-// a // b
-// packet A { u8 x, }
-,}options {
+`doc`, } root packet crc
+{char[	65535	]chars
+,}
+")).
+Eval vm_compute in ("<<<M227>>>" ++ check (runes_of_ascii "packet	crc
+    { @lengthOf(Header )	repeat roots
+    // @lengthOf(
+    `a\` ,
+@lengthOf( tag ) match x as string_{ [ ""a\\"" , ""packet""
+] : Header""// no comment""
+    /// triple
+    :
+Logon , 7:
+falsey ,7  : metadata [ 7  , 00] :
+    // `tick` ""quote"" 'q'
+    repeatCount 3 : u ,
+},
+    //	t
+    @lengthOf( u128
+//
+// " ++ [27880; 37322]%N ++ runes_of_ascii "
+) @rightPad
+(
+'\x00' // c
+)
+char[] int ,int16 Packet @lengthOf(  string_
+    ) , trueish{ repeat
+crc {zchar
+calculatedFrom , } ,
+} ,
+// @lengthOf(
+//x
+@rightPad
+( ) repeat
+    _x pack // " ++ [27880; 37322]%N ++ runes_of_ascii "
+, @lengthOf(
+// c
+// trailing space 
+chars)repeat
+    string_ {repeat
+    uint8x`// not a comment`,}
+, }")).
+Eval vm_compute in ("<<<M1121>>>" ++ check (runes_of_ascii "// top
+root // c0
+packet // c1
+_x
+    // c2
+{ match
+    // c4
+Foo // c5
+as // c6a
+  // c6b
+Z9_ {
+    // c8
+""a	b"" // c9a
+  // c9b
+: // c10
+Pad // c11
+,
+    // c12
+} , // c14
+repeat // c15a
+  // c15b
+x `line1
+line2`
+    // c17
+, // c18
+@rightPad // c19a
+  // c19b
+(
+    // c20
+' ' // c21
+) // c22
+@calculatedFrom( ""a\\""
+    // c24
+) // c25a
+  // c25b
+metadata MetaDataX
+    // c27
+, @tag(
+    // c29
+0 ) // c31
+Logon int
+    // c33
+``
+    // c34
+,
+    // c35
+} // c36
+options // c37
+{
+    // c38
+T // c39
+= // c40a
+  // c40b
+'\x00' } // c42a
+  // c42b
+")).
+Eval vm_compute in ("<<<M1337>>>" ++ check (runes_of_ascii "options {
+    ArrayPrefixLenType = u64;
+    FixedStringPadFromLeft = true;
+    FixedStringPadChar = '0';
+}
+packet Quote {
+}
+packet Ack {
+    repeat InNote66 {
+        u8 pad0,
+    },
+}
+packet Reject {
+}
+root packet Order {
+    Quote,
+    repeat Reject,
+    string venue,
+    string seqNo,
+    uint32 Ref,
+    u16 lastPx,
+    u32 clOrdID @lengthOf(Body),
+    match lastPx as Body {
+        190 : Reject,
+        186 : Quote,
+        22 : Ack,
+    },
+    u16 Flags @calculatedFrom(""CRC32""),
+}
+")).
+Eval vm_compute in ("<<<M180>>>" ++ check (runes_of_ascii "options
+    // @lengthOf(
+    {}
+packet charz { @rightPad (  ' ') @calculatedFrom(
+    ""a\\"" ) repeat int	crc `two words` , string stringy
+    @calculatedFrom( ""a	b""
+    // " ++ [128512]%N ++ runes_of_ascii " emoji
+    )`// not a comment`	,//
+char i8i8,
+}  MetaData	crc {// `tick` ""quote"" 'q'
+crc i64_`{ , }`
+,
+    // `tick` ""quote"" 'q'
+    i32// c
+u128 ,// packet A { u8 x, }
+BodyLength Header
+    ,char[ 0123456789]
+/// triple
+//
+Packet `u8 x,`
+, uint8 repeatCount , //	t
+}")).
+Eval vm_compute in ("<<<M1328>>>" ++ check (runes_of_ascii "
+options
+    {LittleEndian 
+=
+	true
+
+    ;
+    StringPrefixLenType
+
+    =
+
+u16
+    ;FixedStringPadChar
+    =
+    ' '; }packet
+Logon
+
+{
+@leftPad
+    (  '0'
+
+)  char[ 10  ] tag7
+, }root
+
+    packet
+
+    Ack
+{
+    int32 Px 
+,
+uint16
+
+    count
+	,
+	string
+    Qty ,string OrderId , 
+string
+
+    Flags	,  u8 x
+
+,  match x 
+as  Body
+
+{[ 58
+    ,
+169] 
+: Logon
+
+,
+}	,
+
     }
 ")).
-Eval vm_compute in ("<<<M374>>>" ++ check (runes_of_ascii "MetaData BodyLength { zchar[ 65535 ]	As `crlf
-line`
-, u16 charz , body len,
-zchar msg_type ,uint64 metadata
-,}
-root packet //
-matchKey
-    {
-repeat i8i8  `{ , }` ,
-} MetaData a1 { i8i8 Pad`it's`	,
-// trailing space 
-// `tick` ""quote"" 'q'
-int64
-    // " ++ [128512]%N ++ runes_of_ascii " emoji
-    roots `doc` ,
-Foo BodyLength `u8 x,` , } packet	_x
-{ lengthOf
-    {
-pack `" ++ [28040; 24687; 31867; 22411]%N ++ runes_of_ascii "` ,
-string_ // @lengthOf(
-, repeat //
-rootA len , zchar[ 1
-] u8x,} , }
-")).
-Eval vm_compute in ("<<<M1613>>>" ++ check (runes_of_ascii "MetaData pack {
-    int16 rootA `{ , }`,
-    int16 x,
-    u32 msg_type,
-}
+Eval vm_compute in ("<<<M1620>>>" ++ check (runes_of_ascii "MetaData
 
-packet i64_ {
-    @leftPad('0')
-    @rightPad('\x00')
-    @lengthOf(options1)
-    string body @lengthOf(asx) `" ++ [233]%N ++ runes_of_ascii "`,
-}
-
-options {
-    msg_type = 00;
-}
-
-MetaData stringy {
-    zchar MetaDataX `line1
-        line2`,
-    char[255] len `it's`,
-    f32 pack,
-    uint16 Foo `it's`,
-    int16 i64_ `two words`,
-}")).
-Eval vm_compute in ("<<<M1603>>>" ++ check (runes_of_ascii "// top
-MetaData Packet {
-}
-
-// c3
-packet charz {
-    // c6
-    Foo asx `it's`,// c10
-    @lengthOf(T)
-    @calculatedFrom("""")
-    @calculatedFrom(""x y"")
-    // c19
-    zchar[007] repeatCount @lengthOf(int) `a\`,// c28
-    i8 string_,// c31
-    repeat options1 Pad,// c35
-}// c36
-
-root packet Packet {
-    // c40
-    int8 float `doc`,// c44
-}// c45")).
-Eval vm_compute in ("<<<M1699>>>" ++ check (runes_of_ascii "// top
-root packet _x {
-    // c3
-    match Foo as Z9_ {
-        // c8
-        ""a	b"" : Pad,
-    },
-    // c14
-    repeat x `line1
-    line2`,
-    @rightPad(' ')
-    @calculatedFrom(""a\\"")
-    // c25
-    metadata MetaDataX,
-    @tag(0)
-    // c31
-    Logon int ``,
-}
-
-// c36
-options {
-    // c38
-    T = '\x00'
-}")).
-Eval vm_compute in ("<<<M1497>>>" ++ check (runes_of_ascii "
-packet FooBar 	 // c1
-    	{
-u8 
-a
+T {
+	uint8
+float ,repeatCount 
+x
 ,
-	// c5
-	  } 	 // c6
-      packet
+char[  10
+] asx  /// triple
+    ,
 
-    foo_bar 	 // c8a
+    char[
+00
+	] metadata
 
-  // c8b
-		{ 
-    // c9
-  u16  
-      // c10
-b , // c12a
-    	// c12b
+`" ++ [233]%N ++ runes_of_ascii "`
+    ,
 
-  }	// c13
-    root // c14
-	packet  R { 	 // c17a
-// c17b
+u8x asx	//	t
+  ,} MetaData
+trueish
 
-  FooBar ,
-	    // c19
+    { 
+charz
+string_	`crlf
+line`,
+zchar[  42 ] 
+_x
+	    //
+    // `tick` ""quote"" 'q'
+  , }
+	packet
+	o 
+{
 
-  foo_bar // c20
-	,
+char[]	u8x@calculatedFrom(""abc""
 
-} ")).
-Eval vm_compute in ("<<<M1857>>>" ++ check (runes_of_ascii "MetaData BodyLength {
-    uint16 leftPad `" ++ [233]%N ++ runes_of_ascii "`,
-    uint8x asx,
-    len lengthOf `// not a comment`,
-    string uint8x `doc`,
-}
+)
 
-options {
-    i8i8 = 0
-    lengthOf = 0123456789;
-}
+, }
+options { x
 
-packet uint8x {
-    @lengthOf(pack)
-    float64 u8x @lengthOf(asx),
-}")).
-Eval vm_compute in ("<<<M351>>>" ++ check (runes_of_ascii "MetaData leftPad// packet A { u8 x, }
-{ string u128 `say ""hi""` //
-, // c
-A packetx
-    //	t
-    , char[
-//
-// packet A { u8 x, }
-42
+=	255;
+
+u  // " ++ [27880; 37322]%N ++ runes_of_ascii "
+= '0'
+    }
+")).
+Eval vm_compute in ("<<<M12>>>" ++ check (runes_of_ascii "options {falsey =int64; u8x = uint32	uint8x =// " ++ [128512]%N ++ runes_of_ascii " emoji
+zchar[ 1
 ]
-leftPad
-    `tab	here` // trailing space 
-,i16 crc ,
-string uint8x // a // b
-,
+// @lengthOf(
+/// triple
+; leftPad =
+    ""a	b"";
+    calculatedFrom
+=
+    false ;	}
+MetaData Packet
+{  zchar[
+7]  As ,} root packet	pack {
+@leftPad ( )	@tag(// trailing space 
+7 ) zchar[ 3 ] u	@lengthOf(
+// @lengthOf(
+// trailing space 
+x ),
+}
+")).
+Eval vm_compute in ("<<<M1501>>>" ++ check (runes_of_ascii "packet len {
+    // trailing space 
+    repeat zchar f32a `// not a comment`,
+    @tag(255)
+    repeat Pad {
+        x T,
+    },
+    @calculatedFrom(""{,}"")
+    repeat leftPad {
+        u64 u8x `tab	here`,
+        o Packet,
+        char[] chars,
+    },
+    @tag(3)
+    float64 i8i8,
 }")).
-Eval vm_compute in ("<<<M121>>>" ++ check (runes_of_ascii "packet u128 { @calculatedFrom(  ""a	b"" ) // packet A { u8 x, }
-@leftPad( ' '
-) //	t
-@lengthOf(
-Header // packet A { u8 x, }
-) char[10
-    ] crc@lengthOf(
-len ) , } MetaData i8i8 { }
-")).
-Eval vm_compute in ("<<<M152>>>" ++ check (runes_of_ascii "packet T {
-int u ,
-@calculatedFrom( ""\" ++ [233]%N ++ runes_of_ascii """ ) // `tick` ""quote"" 'q'
-repeat// @lengthOf(
-string	x_y_z// a // b
+Eval vm_compute in ("<<<M254>>>" ++ check (runes_of_ascii "packet  zchar
+{ zchar[ 42
+//
+//
+]uint8x ,
+    match
+    A as
+As{
+    0: int
+    ,
+}
+, @tag(7 ) @calculatedFrom(
+""packet"" ) match
+i64_
+as metadata //	t
+{
+    ""CRC32"" :
+A , }
 ,
-uint32// `tick` ""quote"" 'q'
-int `crlf
-line` , }
+    // c
+    }	root
+packet
+uint8x {
+    char[ 00 ]	crc
+,// " ++ [128512]%N ++ runes_of_ascii " emoji
+} 	 ")).
+Eval vm_compute in ("<<<M358>>>" ++ check (runes_of_ascii "
+packet matchKey	{ // @lengthOf(
+@lengthOf(
+a1 ) string_
+T`" ++ [28040; 24687; 31867; 22411]%N ++ runes_of_ascii "`, //
+} packet body {f32 _x  , packetx @lengthOf(
+options1 ) // packet A { u8 x, }
+`` , @leftPad ( ' ') i16 crc ,@calculatedFrom(
+""" ++ [128512]%N ++ runes_of_ascii """
+)	Pad
+, } //")).
+Eval vm_compute in ("<<<M265>>>" ++ check (runes_of_ascii "MetaData
+    zchar
+{
+uint8 _x
+// `tick` ""quote"" 'q'
+//
+`doc` ,
+    float64 metadata`doc` // " ++ [128512]%N ++ runes_of_ascii " emoji
+, zchar[ 42
+    ]
+// packet A { u8 x, }
+// c
+x_y_z , zchar[ 3 ]Logon `{ , }`
+, }
+
 ")).
-Eval vm_compute in ("<<<M1759>>>" ++ check (runes_of_ascii "packet A {
+Eval vm_compute in ("<<<M1639>>>" ++ check (runes_of_ascii "packet A {
     Inner {
         match k as n {
             [
                 1, 22, 007, 4, 5,
-                66, 7, 8
+                66, 7, 8, 9, 10
             ] : B,
         },
     },
 }")).
-Eval vm_compute in ("<<<M1647>>>" ++ check (runes_of_ascii "packet calculatedFrom {
+Eval vm_compute in ("<<<M1907>>>" ++ check (runes_of_ascii "packet A {
+    match k as n {
+        [
+            1, 22, 4, 5, 7,
+            8, 10, 11, ""c c"", ""f"",
+            ""i""
+        ] : B,
+        2 : C,
+    },
+}")).
+Eval vm_compute in ("<<<M1479>>>" ++ check (runes_of_ascii "packet calculatedFrom {
     uint8x {
         body `line1
         line2`,
@@ -889,18 +979,18 @@ Eval vm_compute in ("<<<M1647>>>" ++ check (runes_of_ascii "packet calculatedFro
         char[] As @lengthOf(Pad),
     },
 }")).
-Eval vm_compute in ("<<<M463>>>" ++ check (runes_of_ascii "packet uint8x
-{ match pack
+Eval vm_compute in ("<<<M545>>>" ++ check (runes_of_ascii "packet uint8x
+{ match' pack
     as msg_type	{
     0123456789 :	float
 }
 ,
-} float32 //	t
+} packet //	t
 a1
     { } options {packetx
     = '\x00'	; u128= ""a	b""  ; }
 ")).
-Eval vm_compute in ("<<<M473>>>" ++ check (runes_of_ascii "packet uint8x
+Eval vm_compute in ("<<<M497>>>" ++ check (runes_of_ascii "packet uint8x
 { match pack
     as msg_type	{
     0123456789 :	float
@@ -908,234 +998,249 @@ Eval vm_compute in ("<<<M473>>>" ++ check (runes_of_ascii "packet uint8x
 ,
 } packet //	t
 a1
-    ] } options {packetx
-    = '\x00'	; u128= ""a	b""  ; }
+    { } options {packetx
+    '\x00' =	; u128= ""a	b""  ; }
 ")).
-Eval vm_compute in ("<<<M676>>>" ++ check (runes_of_ascii "// @lengthOf(
+Eval vm_compute in ("<<<M1900>>>" ++ check (runes_of_ascii "packet A
+	{match 
+k	as n
+{ 
+[
+
+1  ,
+""bb""  ,
+    007  ,""d"" ,5
+    ,
+
+""f"" , 7 
+, ""h""
+
+,
+    9
+,
+    ""j"" 
+,
+    11
+
+    ] :B
+
+,	2
+:
+C	}
+
+    ,
+
+}
+
+")).
+Eval vm_compute in ("<<<M670>>>" ++ check (runes_of_ascii "// @lengthOf(
 packet i8i8 { u128 o , }
 options { MetaDataX = true;
-    BodyLength =""packet"" x_y_z x_y_z= 007
+    BodyLength =""packet"" x_y_z= 007
+crc //x
+= ""abc"" ;
+    msg_type = =
+i16 }")).
+Eval vm_compute in ("<<<M662>>>" ++ check (runes_of_ascii "// @lengthOf(
+packet i8i8 { u128 o , }
+{ options MetaDataX = true;
+    BodyLength =""packet"" x_y_z= 007
 crc //x
 = ""abc"" ;
     msg_type =
 i16 }")).
-Eval vm_compute in ("<<<M398>>>" ++ check (runes_of_ascii "packet [
-{ match pack
-    as msg_type	{
-    0123456789 :	float
+Eval vm_compute in ("<<<M706>>>" ++ check (runes_of_ascii "// @lengthOf(
+packet i8i8 { u128 o , }
+options { MetaDataX = ;
+    BodyLength =""packet"" x_y_z= 007
+crc //x
+= ""abc"" ;
+    msg_type =
+i16 }")).
+Eval vm_compute in ("<<<M1796>>>" ++ check (runes_of_ascii "options {
+    LittleEndian = true;
 }
-,
-} packet //	t
-a1
-    { } options {packetx
-    = '\x00'	; u128= ""a	b""  ; }
-")).
-Eval vm_compute in ("<<<M120>>>" ++ check (runes_of_ascii "packet float {@calculatedFrom(
-// " ++ [128512]%N ++ runes_of_ascii " emoji
-// packet A { u8 x, }
-""CRC32"" )Foo `" ++ [28040; 24687; 31867; 22411]%N ++ runes_of_ascii "`	,@calculatedFrom( ""a\\"" )
-    zchar[ 0 ]	msg_type `doc` , }")).
-Eval vm_compute in ("<<<M1565>>>" ++ check (runes_of_ascii "MetaData
-    leftPad{ 
-chars  MetaDataX ,	}
-packet repeatCount
-{ char[ 255
-    ] 
-uint8x  // c
-  `" ++ [233]%N ++ runes_of_ascii "` 
-,
-} MetaData  pack
 
-{
+packet B {
+    u8 a,
+    string s,
+}
 
-As  Foo ,  }
-
-")).
-Eval vm_compute in ("<<<M1851>>>" ++ check (runes_of_ascii "packet A {
-    match k as n {
-        [
-            22, 4, 66, 8, ""a"",
-            ""c c"", ""e"", ""g""
-        ] : B,
-        2 : C,
-    },
+root packet P {
+    u16 L @lengthOf(B),
+    B,
+    u8 t,
 }")).
-Eval vm_compute in ("<<<M1622>>>" ++ check (runes_of_ascii "MetaData leftPad {
-    string u128 `say ""hi""`,
-    A packetx,
-    char[42] leftPad `tab	here`,
-    i16 crc,
-    string uint8x,
-}")).
-Eval vm_compute in ("<<<M1391>>>" ++ check (runes_of_ascii "packet A {
-    u16 len @lengthOf(body) `
-        `,
-    u32 crc @calculatedFrom(""CRC32"") `
-        `,
+Eval vm_compute in ("<<<M937>>>" ++ check (runes_of_ascii "packet A {
+    u16 len @lengthOf(body) `a
+    b
+  c`,
+    u32 crc @calculatedFrom(""CRC32"") `a
+    b
+  c`,
     string body,
 }")).
-Eval vm_compute in ("<<<M1165>>>" ++ check (runes_of_ascii "MetaData leftPad { chars MetaDataX , } packet repeatCount { char[ 255 // c
-] uint8x `" ++ [233]%N ++ runes_of_ascii "` , } MetaData pack { As Foo , }")).
-Eval vm_compute in ("<<<M499>>>" ++ check (runes_of_ascii "packet uint8x
-{ match pack
-    as msg_type	{
-    0123456789 :	float
-}
-,
-} packet //	t
-a1
-    { } options {packetx")).
-Eval vm_compute in ("<<<M489>>>" ++ check (runes_of_ascii "packet uint8x
-{ match pack
-    as msg_type	{
-    0123456789 :	float
-}
-,
-} packet //	t
-a1
-    { } options")).
-Eval vm_compute in ("<<<M944>>>" ++ check (runes_of_ascii "packet A {
-    Inner {
-        u8 x `a
-
-b`,
-        Deep {
-            u8 y `a
-
-b`,
-        },
-    },
-}")).
-Eval vm_compute in ("<<<M1304>>>" ++ check (runes_of_ascii "
-packet order_item
-
-{  u8
-a
-
-    , } root
+Eval vm_compute in ("<<<M1149>>>" ++ check (runes_of_ascii "MetaData leftPad { chars // c
+MetaDataX , } packet repeatCount { char[ 255 ] uint8x `" ++ [233]%N ++ runes_of_ascii "` , } MetaData pack { As Foo , }")).
+Eval vm_compute in ("<<<M1181>>>" ++ check (runes_of_ascii "MetaData leftPad { chars MetaDataX , } packet repeatCount { char[ 255 ] uint8x `" ++ [233]%N ++ runes_of_ascii "` , } MetaData pack { // c
+As Foo , }")).
+Eval vm_compute in ("<<<M1417>>>" ++ check (runes_of_ascii "
 packet
+    A {
+match
+k  as  n
 
-    new_order{ order_item
-	,  u8
-x ,
+{ [ 
+1 ,
+22,
+	""c c""  ,4 ,	5
+    , ""f""	,
+7
+]
 
-}
+    :
+	B  2  :
 
+    C }
+,	}
 ")).
-Eval vm_compute in ("<<<M862>>>" ++ check (runes_of_ascii "packet A {
+Eval vm_compute in ("<<<M949>>>" ++ check (runes_of_ascii "packet A {
+    u16 len @lengthOf(body) `x
+`,
+    u32 crc @calculatedFrom(""CRC32"") `x
+`,
+    string body,
+}")).
+Eval vm_compute in ("<<<M913>>>" ++ check (runes_of_ascii "packet A {
   match k as n {
-    [""a"", ""bb"", 007, ""d"", ""e"", 66, ""g"", ""h""] : B,
+    [1, 22, ""c c"", 4, 5, ""f"", 7, 8, ""i"", 10, 11, ""l""] : B
     2 : C
   },
 }")).
-Eval vm_compute in ("<<<M613>>>" ++ check (runes_of_ascii "
+Eval vm_compute in ("<<<M656>>>" ++ check (runes_of_ascii "// @lengthOf(
+packet i8i8 { u128 o , }
+options { MetaDataX = true;
+    BodyLength =""packet"" x_y_z")).
+Eval vm_compute in ("<<<M565>>>" ++ check (runes_of_ascii "
+packet
+    asx true match u128 as lengthOf
+{
+//	t
+// `tick` ""quote"" 'q'
+255 : x ,
+    } ,	}")).
+Eval vm_compute in ("<<<M629>>>" ++ check (runes_of_ascii "
 packet
     asx {match u128 as lengthOf
 {
 //	t
 // `tick` ""quote"" 'q'
 255 : x ,
-    } } ,	}")).
-Eval vm_compute in ("<<<M579>>>" ++ check (runes_of_ascii "
+    } ~ ,	}")).
+Eval vm_compute in ("<<<M609>>>" ++ check (runes_of_ascii "
 packet
-    asx {match u128 lengthOf as
+    asx {match u128 as lengthOf
 {
 //	t
 // `tick` ""quote"" 'q'
-255 : x ,
-    } ,	}")).
-Eval vm_compute in ("<<<M828>>>" ++ check (runes_of_ascii "packet A {
-  match k as n {
-    [""a"", ""bb"", ""c c"", ""d"", ""e"", ""f""] : B,
-    2 : C
-  },
-}")).
-Eval vm_compute in ("<<<M836>>>" ++ check (runes_of_ascii "packet A {
-  match k as n {
-    [""a"", ""bb"", 007, ""d"", ""e"", 66] : B,
-    2 : C
-  },
-}")).
-Eval vm_compute in ("<<<M831>>>" ++ check (runes_of_ascii "packet A {
-  match k as n {
-    [1, ""bb"", 007, ""d"", 5, ""f""] : B
-    2 : C
-  },
-}")).
-Eval vm_compute in ("<<<M826>>>" ++ check (runes_of_ascii "packet A {
-  match k as n {
-    [1, 22, 007, 4, 5, 66] : B,
-    2 : C
-  },
-}")).
-Eval vm_compute in ("<<<M1828>>>" ++ check (runes_of_ascii "
-packet  body {
-i32
-
-f32a
-
-    `{ , }` ,
-
-} // c
-      options
-    { }")).
-Eval vm_compute in ("<<<M864>>>" ++ check (runes_of_ascii "packet A { Inner { match k as n { [1,22,007,4,5,66,7,8] : B, }, }, }")).
-Eval vm_compute in ("<<<M1617>>>" ++ check (runes_of_ascii "root
-packet
-
-    P { repeat
-	string
-	ss
-, repeat	u16 ns  ,
-} ")).
-Eval vm_compute in ("<<<M948>>>" ++ check (runes_of_ascii "packet A {
+255 : x }
+    , ,	}")).
+Eval vm_compute in ("<<<M1086>>>" ++ check (runes_of_ascii "packet A { match k as n // a
+ { // b
+ 1 // c
+ : // d
+ B // e
+ , // f
+ } // g
+ , // h
+ }")).
+Eval vm_compute in ("<<<M1552>>>" ++ check (runes_of_ascii "packet A {
     B b `x
-`,
+        `,
     B `x
-`,
+        `,
     repeat B bs `x
-`,
+        `,
 }")).
-Eval vm_compute in ("<<<M760>>>" ++ check (runes_of_ascii "MetaData @rightPad 3 i32 int32 ; int8 body ""a	b"" `" ++ [28040; 24687; 31867; 22411]%N ++ runes_of_ascii "`")).
-Eval vm_compute in ("<<<M1207>>>" ++ check (runes_of_ascii "packet body { i32 f32a // c
-`{ , }` , } options { }")).
-Eval vm_compute in ("<<<M1797>>>" ++ check (runes_of_ascii "// top
+Eval vm_compute in ("<<<M1273>>>" ++ check (runes_of_ascii "options {
+    FixedStringPadFromLeft = true;
+}
 root packet P {
-    // c3
-    string s,
-}")).
-Eval vm_compute in ("<<<M363>>>" ++ check (runes_of_ascii "MetaData
-    // @lengthOf(
-    tag {
-    }")).
-Eval vm_compute in ("<<<M274>>>" ++ check (runes_of_ascii "packet Z9_
-{ }
-    packet Pad { } 	 ")).
-Eval vm_compute in ("<<<M1612>>>" ++ check (runes_of_ascii "packet A {
-    u8 x `d" ++ [6158]%N ++ runes_of_ascii "`,// c" ++ [6158]%N ++ runes_of_ascii "
-}")).
-Eval vm_compute in ("<<<M1048>>>" ++ check (runes_of_ascii "packet A {
- u8 x `d" ++ [8203]%N ++ runes_of_ascii "`, // c" ++ [8203]%N ++ runes_of_ascii "
-}")).
-Eval vm_compute in ("<<<M929>>>" ++ check (runes_of_ascii "packet A {
-    u8 x `
-`,
-}")).
-Eval vm_compute in ("<<<M1488>>>" ++ check (runes_of_ascii "
-
-  packet
-A {  }// c" ++ [5760]%N)).
-Eval vm_compute in ("<<<M1892>>>" ++ check (runes_of_ascii "
-
-  MetaData	A{
-	}
+    char[4] z,
+}
 ")).
-Eval vm_compute in ("<<<M1002>>>" ++ check (runes_of_ascii "// c" ++ [8192]%N ++ runes_of_ascii "
-packet A {
+Eval vm_compute in ("<<<M1397>>>" ++ check (runes_of_ascii "packet A {
+    match k as n {
+        [1, ""bb""] : B,
+        2 : C,
+    },
 }")).
-Eval vm_compute in ("<<<M277>>>" ++ check (runes_of_ascii "MetaData i64_ { }")).
-Eval vm_compute in ("<<<M409>>>" ++ check (runes_of_ascii "packet uint8x
-{")).
-Eval vm_compute in ("<<<M561>>>" ++ check (runes_of_ascii "
-packet")).
-Eval vm_compute in ("<<<M736>>>" ++ check (runes_of_ascii " " ++ [12]%N ++ runes_of_ascii " ")).
+Eval vm_compute in ("<<<M789>>>" ++ check (runes_of_ascii "packet A {
+  match k as n {
+    [""a"", ""bb"", ""c c""] : B,
+    2 : C
+  },
+}")).
+Eval vm_compute in ("<<<M801>>>" ++ check (runes_of_ascii "packet A {
+  match k as n {
+    [1, 22, 007, 4] : B
+    2 : C
+  },
+}")).
+Eval vm_compute in ("<<<M155>>>" ++ check (runes_of_ascii "options
+{calculatedFrom
+= ""abc""
+;float=i16
+} // trailing space ")).
+Eval vm_compute in ("<<<M1697>>>" ++ check (runes_of_ascii "packet A {
+    @tag(1)
+    u8 x,// b
+    @tag(2)
+    u8 y,
+}")).
+Eval vm_compute in ("<<<M1657>>>" ++ check (runes_of_ascii "packet body {
+    i32 f32a `{ , }`,
+}// c
+
+options {
+}")).
+Eval vm_compute in ("<<<M1215>>>" ++ check (runes_of_ascii "packet body { i32 f32a `{ , }` , } options // c
+{ }")).
+Eval vm_compute in ("<<<M284>>>" ++ check (runes_of_ascii "
+options{ trueish=
+'0' //	t
+;a1 = u64
+; }")).
+Eval vm_compute in ("<<<M1434>>>" ++ check (runes_of_ascii "packet MetaDataX {
+    i16 u128 `" ++ [233]%N ++ runes_of_ascii "`,//x
+}")).
+Eval vm_compute in ("<<<M1871>>>" ++ check (runes_of_ascii "packet A {
+    u8 x `a
+        b`,
+}")).
+Eval vm_compute in ("<<<M1721>>>" ++ check (runes_of_ascii "packet A {
+    u8 x `d" ++ [8239]%N ++ runes_of_ascii "`,// c" ++ [8239]%N ++ runes_of_ascii "
+}")).
+Eval vm_compute in ("<<<M759>>>" ++ check (runes_of_ascii "= u64 ; u32 MetaData packet {")).
+Eval vm_compute in ("<<<M1906>>>" ++ check (runes_of_ascii "
+MetaData  tag
+
+// c
+
+{
+}")).
+Eval vm_compute in ("<<<M238>>>" ++ check (runes_of_ascii "root packet chars
+{}
+")).
+Eval vm_compute in ("<<<M1128>>>" ++ check (runes_of_ascii "// c
+MetaData u { }")).
+Eval vm_compute in ("<<<M1021>>>" ++ check (runes_of_ascii "packet A {
+}
+// c" ++ [8239]%N)).
+Eval vm_compute in ("<<<M994>>>" ++ check (runes_of_ascii "packet A {
+}// c" ++ [5760]%N)).
+Eval vm_compute in ("<<<M762>>>" ++ check (runes_of_ascii "w|lL|]kVFeknSP9")).
+Eval vm_compute in ("<<<M1539>>>" ++ check (runes_of_ascii "// c
+ 
+")).
+Eval vm_compute in ("<<<M56>>>" ++ check (runes_of_ascii " 	 ")).
